@@ -2,8 +2,8 @@
 // inside a go1.26 testing/synctest bubble (virtual clock), and writes a trace for the Coq runner (runner/Engine).
 //
 // Two op languages:
-//   * "gops" (generator level, text, one per line; this is what corpus files / VERIF_OPS hold), see parseGop;
-//   * trace lines (what the OCaml runner reads): names are '/'-joined interned keys, see DESIGN appendix B and
+//   - "gops" (generator level, text, one per line; this is what corpus files / VERIF_OPS hold), see parseGop;
+//   - trace lines (what the OCaml runner reads): names are '/'-joined interned keys, see DESIGN appendix B and
 //     runner/Engine/driver.ml.
 //
 // Environment: VERIF_SEED, VERIF_N (number of generated cases), VERIF_OUT (trace path), VERIF_OPS (file with
@@ -237,38 +237,51 @@ type world struct {
 	face  *lockedFace
 	start time.Time
 
-	exprMu  sync.Mutex
-	mu      sync.Mutex
-	cbs     []string // callback observations of the current top-level op
-	nested  []string // nested op lines of the current top-level op
-	outs    []string
-	nextPid int
-	pidWire map[int][]byte
-	probe   []int
-	intern  map[string]int
-	nextKey int
-	nextIid int
-	replies map[int]ndn.WireReplyFunc
-	iidWire map[int][]byte
-	iidTok  map[int]string
-	curHid  int
-	curIid  int
+	exprMu     sync.Mutex
+	mu         sync.Mutex
+	cbs        []string // callback observations of the current top-level op
+	nested     []string // nested op lines of the current top-level op
+	outs       []string
+	nextPid    int
+	pidWire    map[int][]byte
+	probe      []int
+	intern     map[string]int
+	trieIntern map[string]int
+	nextKey    int
+	nextIid    int
+	replies    map[int]ndn.WireReplyFunc
+	iidWire    map[int][]byte
+	iidTok     map[int]string
+	curHid     int
+	curIid     int
 }
 
 func (w *world) nowMs() int64 { return time.Since(w.start).Milliseconds() }
 
+// key interns a component by its identity (TLV bytes). The trie dumps report the engine's own keys; trieIntern maps those
+// back to ids, so a trie whose keys conflate different components shows up as a divergence, and names in callbacks
+// keep their true identity for the oracle.
 func (w *world) key(c enc.Component) int {
-	s := c.String()
+	s := string(c.Bytes())
 	if k, ok := w.intern[s]; ok {
 		return k
 	}
 	k := w.nextKey
 	w.nextKey++
 	w.intern[s] = k
+	w.trieIntern[basic.VerifTrieKey(c)] = k
 	return k
 }
 
+// Component ids 3 and 4 are two different components with the same URI form "seg=5" (a segment number in shortest and
+// in non-shortest encoding); the others are generic components.
 func compOf(k int) enc.Component {
+	switch k {
+	case 3:
+		return enc.Component{Typ: enc.TypeSegmentNameComponent, Val: []byte{5}}
+	case 4:
+		return enc.Component{Typ: enc.TypeSegmentNameComponent, Val: []byte{0, 5}}
+	}
 	return enc.NewStringComponent(enc.TypeGenericNameComponent, genericComps[k])
 }
 
@@ -446,7 +459,7 @@ func (w *world) pitDump() string {
 		w.probe = nil
 		p := make([]int, len(path))
 		for i, s := range path {
-			k, ok := w.intern[s]
+			k, ok := w.trieIntern[s]
 			if !ok {
 				k = -1
 			}
@@ -477,7 +490,7 @@ func (w *world) fibDump() string {
 	w.eng.VerifFibDump(func(path []string, h ndn.InterestHandler) {
 		p := make([]int, len(path))
 		for i, s := range path {
-			k, ok := w.intern[s]
+			k, ok := w.trieIntern[s]
 			if !ok {
 				k = -1
 			}
@@ -526,10 +539,11 @@ var progress atomic.Int64
 func runCase(t *testing.T, ops []gop) []string {
 	var lines []string
 	synctest.Test(t, func(t *testing.T) {
-		w := &world{pidWire: map[int][]byte{}, intern: map[string]int{}, nextKey: 100, replies: map[int]ndn.WireReplyFunc{},
+		w := &world{pidWire: map[int][]byte{}, intern: map[string]int{}, trieIntern: map[string]int{}, nextKey: 100, replies: map[int]ndn.WireReplyFunc{},
 			iidWire: map[int][]byte{}, iidTok: map[int]string{}}
 		for k := 1; k < len(genericComps); k++ {
-			w.intern[compOf(k).String()] = k
+			w.intern[string(compOf(k).Bytes())] = k
+			w.trieIntern[basic.VerifTrieKey(compOf(k))] = k
 		}
 		w.face = &lockedFace{DummyFace: dummy.NewDummyFace()}
 		timer := basic.NewTimer()
